@@ -99,7 +99,7 @@ func loadPkg(dir string) (*xPkg, error) {
 	return p, nil
 }
 
-func scExprString(fset *token.FileSet, e ast.Expr) string {
+func exprString(fset *token.FileSet, e ast.Expr) string {
 	var sb strings.Builder
 	printer.Fprint(&sb, fset, e)
 	return sb.String()
@@ -167,7 +167,7 @@ func (c *xCtx) goTy(p *xPkg, prefix string, e ast.Expr, need *[]string) string {
 			}
 		}
 	}
-	return fmt.Sprintf("(.unsupported %s)", strconv.Quote(scExprString(p.fset, e)))
+	return fmt.Sprintf("(.unsupported %s)", strconv.Quote(exprString(p.fset, e)))
 }
 
 // structTree collects root and every struct reachable from it (declaration order of discovery).
@@ -212,7 +212,7 @@ func (c *xCtx) structTree(p *xPkg, root string) ([]xStruct, error) {
 			}
 			if len(names) == 0 { // embedded field: not handled by forEachStructField either (reported)
 				names = []string{"<embedded>"}
-				ty = fmt.Sprintf("(.unsupported %s)", strconv.Quote("embedded "+scExprString(q.fset, f.Type)))
+				ty = fmt.Sprintf("(.unsupported %s)", strconv.Quote("embedded "+exprString(q.fset, f.Type)))
 			}
 			for _, n := range names {
 				// forEachStructField: unexported fields are skipped unless they are named "_"
